@@ -613,11 +613,16 @@ func vbNewController(sm *vbSM, ignore bool, disableL2 bool) *controller {
 	return vbNewControllerFor(vbNodeNames[0], sm, ignore, disableL2)
 }
 
+// BGP implementation of the controllers built by the harness.  frr-k8s with the secret passed through
+// (Namespace == FRRK8sNamespace) hands the peer's secret REFERENCE to the session, so that the arguments
+// of NewSession show every field of the peer configuration a session was created from.
+var vbBGPType = bgpFrrK8s
+
 func vbNewControllerFor(me string, sm *vbSM, ignore bool, disableL2 bool) *controller {
 	old := newBGP
 	newBGP = func(controllerConfig) bgp.SessionManager { return sm }
 	defer func() { newBGP = old }()
-	c, err := newController(controllerConfig{MyNode: me, DisableLayer2: disableL2, bgpType: bgpNative,
+	c, err := newController(controllerConfig{MyNode: me, DisableLayer2: disableL2, bgpType: vbBGPType,
 		Logger: log.NewNopLogger(), IgnoreExcludeLB: ignore, BGPAdsChangedCallback: func(string) {}})
 	if err != nil {
 		panic(err)
@@ -812,6 +817,7 @@ type vbPeer struct {
 	Name int        `json:"name"`
 	Sels [][][2]int `json:"sels"` // selectors: lists of (key,value)
 	Attr int        `json:"attr"`
+	Ref  int        `json:"ref,omitempty"` // 0: no password; n: authenticated through secret "sec<n>" (same content)
 }
 type vbEv struct {
 	Op     string     `json:"op"` // set del cfg node
@@ -841,6 +847,10 @@ func vbBuildPeer(p vbPeer) *config.Peer {
 		ASN: uint32(64512 + p.Attr), MyASN: 64512}
 	for _, s := range p.Sels {
 		c.NodeSelectors = append(c.NodeSelectors, labels.SelectorFromSet(labels.Set(vbLabelSet(s))))
+	}
+	if p.Ref > 0 {
+		c.SecretPassword = "s3cret"
+		c.PasswordRef.Name, c.PasswordRef.Namespace = fmt.Sprintf("sec%d", p.Ref), "metallb-system"
 	}
 	return c
 }
@@ -879,7 +889,7 @@ func vbGenPeers(r *rand.Rand) []vbPeer {
 		if r.Intn(4) == 0 {
 			continue
 		}
-		p := vbPeer{Name: i, Attr: r.Intn(2), Sels: [][][2]int{}}
+		p := vbPeer{Name: i, Attr: r.Intn(2), Ref: r.Intn(3), Sels: [][][2]int{}}
 		for s := r.Intn(3); s > 0; s-- {
 			sel := vbGenLabels(r)
 			p.Sels = append(p.Sels, sel)
@@ -998,7 +1008,7 @@ func vbPeersCoq(ps []vbPeer) string {
 		for _, s := range p.Sels {
 			sl = append(sl, vbPairsCoq(s))
 		}
-		pl = append(pl, cCtor("Build_pcfg", cNi(p.Name), cList(sl), cNi(p.Attr)))
+		pl = append(pl, cCtor("Build_pcfg", cNi(p.Name), cList(sl), cNi(p.Attr), cNi(p.Ref)))
 	}
 	return cList(pl)
 }
@@ -1022,6 +1032,7 @@ func vbEvCoq(e vbEv) string {
 type vbObs struct {
 	Sess  map[int][]vbAd `json:"sess"`  // live sessions: peer -> last Set (set)
 	Peers map[int][]int  `json:"peers"` // PeersForService per service
+	Made  map[int][2]int `json:"made"`  // live sessions: (attribute, secret reference) in the NewSession arguments
 }
 
 func vbObsCoq(o vbObs) string {
@@ -1037,7 +1048,11 @@ func vbObsCoq(o vbObs) string {
 	for s := 0; s < 4; s++ {
 		pl = append(pl, cPair(cNi(s), cListN(o.Peers[s])))
 	}
-	return cCtor("mk_bobs", cList(sl), cList(pl))
+	var ml []string
+	for _, k := range ks {
+		ml = append(ml, cPair(cNi(k), cPair(cNi(o.Made[k][0]), cNi(o.Made[k][1]))))
+	}
+	return cCtor("mk_bobs", cList(sl), cList(pl), cList(ml))
 }
 
 // statement oracle state: what is announced (last SetBalancer not followed by a
@@ -1196,9 +1211,12 @@ func vbRunHistory(out *vOut, id int, kind string, h []vbEv) {
 		}
 		// ---- observe
 		live, dup := sm.live()
-		o := vbObs{Sess: map[int][]vbAd{}, Peers: map[int][]int{}}
+		o := vbObs{Sess: map[int][]vbAd{}, Peers: map[int][]int{}, Made: map[int][2]int{}}
 		for nm, s := range live {
 			o.Sess[vbPeerIdx(nm)] = vbAdSet(s.ads)
+			ref := 0
+			fmt.Sscanf(s.params.PasswordRef.Name, "sec%d", &ref)
+			o.Made[vbPeerIdx(nm)] = [2]int{int(s.params.PeerASN) - 64512, ref}
 		}
 		for s := 0; s < 4; s++ {
 			ps := []int{}
@@ -1230,6 +1248,10 @@ func vbRunHistory(out *vOut, id int, kind string, h []vbEv) {
 			for _, p := range w.peers {
 				if p.Name == pn {
 					conf = true
+					if o.Made[pn] != [2]int{p.Attr, p.Ref} {
+						fail("bgp-session-params-stale-after-setconfig",
+							fmt.Sprintf("the live session of peer %d was created with (asn attribute, secret) %v, its current configuration has %v", pn, o.Made[pn], [2]int{p.Attr, p.Ref}))
+					}
 				}
 			}
 			if !conf {
